@@ -1,4 +1,5 @@
 import Verif.Model.Css
+import Verif.Proofs.Css
 /-!
 # C04 — CSS minification preserves the cascade input
 
@@ -6,7 +7,7 @@ Property theorems only.  Model: `Verif.Model.Css` (behavioural model of `/repo/c
 correspondence stage `decl`); specification: `Verif.Spec.CssValue` (denotations of CSS values).
 -/
 namespace Verif.Props.C04
-open Verif.Spec.CssValue Verif.Model.Css
+open Verif.Spec.CssValue Verif.Model.Css Verif.Proofs.Css Verif.Gen.C04Tables
 
 /-! ## (a) 1–4 values: `margin`, `padding`, `border-width` -/
 
@@ -47,5 +48,330 @@ theorem four_sides_ok (vs : List Tok) : fourSides (minifySides vs) = fourSides v
   | _ :: _ :: _ :: _ :: _ :: _ => rfl
 
 example : minifySides [tNum ['0'], tNum ['1'], tNum ['0'], tNum ['1']] = [tNum ['0'], tNum ['1']] := by decide
+
+/-! ## (b) zero values lose their unit only where the grammar allows -/
+
+/-- output shape of `minify.Number`/`minify.Decimal` (property C08, clause 5 — a contract here): a result
+    that starts with `0` is exactly `0` -/
+def MinShape (m : List Char) : Prop := m.head? = some '0' → m = ['0']
+
+/-- two lexemes are the same text, or both are numeric and denote equivalent quantities -/
+def LexEquiv (eqv : Num → Num → Bool) (s s' : List Char) : Prop :=
+  s = s' ∨ ∃ a b, numOfLexeme s = some a ∧ numOfLexeme s' = some b ∧ eqv a b = true
+
+/-- **zero units, full statement**: for every property, enclosing function `name` (`[]` = top level), minified
+    number `m`, CSS unit `dim` and aliasing offset `d`, the zero-unit cut of `minifyTokens` yields a lexeme that
+    denotes the same quantity in that context.  *False* on the current code, see the two counterexamples. -/
+def zero_unit_full : Prop :=
+  ∀ (prop name m dim : List Char) (d : Nat), MinShape m → dim ∈ cssUnits →
+    LexEquiv (ctxEquiv name) (zeroCut prop (known (lower name)) (m ++ dim) (aliasedDim dim d)) (m ++ dim)
+
+/-- **zero units**: the cut is meaning-preserving whenever the context is one where CSS lets a zero drop its unit:
+    any `<length>` unit outside the typed math functions; an `<angle>` unit only inside the legacy functions
+    (known findings K-C04-4, K-C04-5 are exactly the two guards).  The regenerated table
+    `optionalZeroDimension` enters through the whole-table lemma `aliased_small`: adding a time, frequency,
+    resolution or flex unit to it breaks this proof. -/
+theorem zero_unit_partial (prop name m dim : List Char) (d : Nat)
+    (hm : MinShape m) (hu : dim ∈ cssUnits)
+    (hang : angleUnits.contains dim = true → legacyAngleFns.contains (lower name) = true)
+    (hmath : typedMathFns.contains (lower name) = false) :
+    LexEquiv (ctxEquiv name) (zeroCut prop (known (lower name)) (m ++ dim) (aliasedDim dim d)) (m ++ dim) := by
+  unfold zeroCut
+  split
+  · rename_i hc
+    simp only [Bool.and_eq_true, decide_eq_true_eq, beq_iff_eq] at hc
+    obtain ⟨⟨⟨⟨_, hh⟩, hz⟩, _⟩, _⟩ := hc
+    have hmne : m ≠ [] := by
+      intro e; subst e
+      simp at hh
+      exact unit_head dim hu hh
+    have hm0 : m = ['0'] := by
+      apply hm
+      cases m with
+      | nil => exact absurd rfl hmne
+      | cons c r => simpa using hh
+    subst hm0
+    right
+    refine ⟨.number 0, .dimension 0 dim, lex_zero, lex_zero_unit dim hu, ?_⟩
+    have hunit := aliased_unit dim d hu hz
+    simp only [ctxEquiv, Num.isZero, hmath]
+    simp only [Bool.or_eq_true] at hunit
+    rcases hunit with hl | ha
+    · simp; left; simpa using hl
+    · simp; right; exact ⟨by simpa using ha, by simpa using hang ha⟩
+  · left; rfl
+
+example : MinShape ['0'] ∧ S "px" ∈ cssUnits ∧ typedMathFns.contains (lower (S "translate")) = false ∧
+    zeroCut (S "transform") (known (lower (S "translate"))) (S "0px") (aliasedDim (S "px") 0) = ['0'] := by
+  refine ⟨fun _ => rfl, by decide, by decide, by decide⟩
+
+/-- K-C04-4: `rotate:0deg` → `rotate:0` — a bare `0` is not an `<angle>` at the top level of a declaration -/
+theorem zero_unit_counterexample_angle : ¬ zero_unit_full := by
+  intro h
+  have h1 := h (S "rotate") [] ['0'] (S "deg") 0 (fun _ => rfl) (by decide)
+  have hcut : zeroCut (S "rotate") (known (lower [])) (['0'] ++ S "deg") (aliasedDim (S "deg") 0) = ['0'] := by
+    decide
+  rw [hcut] at h1
+  rcases h1 with h2 | ⟨a, b, ha, hb, he⟩
+  · exact absurd h2 (by decide)
+  · have ha' : a = .number 0 := by rw [lex_zero] at ha; exact (Option.some.inj ha).symm
+    have hb' : b = .dimension 0 (S "deg") := by
+      have : numOfLexeme (['0'] ++ S "deg") = some (.dimension 0 (S "deg")) := by decide +kernel
+      rw [this] at hb; exact (Option.some.inj hb).symm
+    subst ha'; subst hb'
+    exact absurd he (by decide +kernel)
+
+/-- K-C04-5: `hypot(0px,3px)` → `hypot(0,3px)` — inside a typed math function a bare `0` is a `<number>` -/
+theorem zero_unit_counterexample_math : ¬ zero_unit_full := by
+  intro h
+  have h1 := h (S "width") (S "hypot") ['0'] (S "px") 0 (fun _ => rfl) (by decide)
+  have hcut : zeroCut (S "width") (known (lower (S "hypot"))) (['0'] ++ S "px") (aliasedDim (S "px") 0) = ['0'] := by
+    decide
+  rw [hcut] at h1
+  rcases h1 with h2 | ⟨a, b, ha, hb, he⟩
+  · exact absurd h2 (by decide)
+  · have ha' : a = .number 0 := by rw [lex_zero] at ha; exact (Option.some.inj ha).symm
+    have hb' : b = .dimension 0 (S "px") := by
+      have : numOfLexeme (['0'] ++ S "px") = some (.dimension 0 (S "px")) := by decide +kernel
+      rw [this] at hb; exact (Option.some.inj hb).symm
+    subst ha'; subst hb'
+    exact absurd he (by decide +kernel)
+
+/-- no unit is ever dropped from a percentage, a time, a frequency, a resolution or a flex fraction, in `flex`,
+    or inside a function `css.ToHash` knows (`calc`, `min`, `max`, `clamp`, `var`, gradients, …) -/
+theorem zero_unit_kept (prop fn d seen : List Char)
+    (h : optionalZeroDimension.contains seen = false ∨ prop = S "flex" ∨ fn ≠ []) :
+    zeroCut prop fn d seen = d := by
+  unfold zeroCut
+  rcases h with h | h | h
+  · have h' : ¬ seen ∈ optionalZeroDimension := by simpa using h
+    rw [if_neg]; simp; intro _ _ hc; exact absurd hc h'
+  · subst h; simp
+  · rw [if_neg]; simp [h]
+
+/-! ## (c) colours -/
+
+/-- **colours, full statement**: `minifyColor` never changes the sRGB colour and alpha a token denotes.
+    *False*: see `color_counterexample` (K-C04-11). -/
+def color_full : Prop := ∀ t : Tok, rgba (minifyColor t) = rgba t
+
+/-- **colours**: hex shortening (`#aabbcc` → `#abc`, `#aabbccdd` → `#abcd`, `#rrggbbff` → `#rrggbb`), hex → name
+    and name → hex through the *regenerated* tables `ShortenColorHex` / `ShortenColorName` (whole-table lemmas
+    `hex_table_ok`, `name_table_ok` against the independent keyword table) preserve colour and alpha of every token
+    — any identifier in any case, any hash lexeme, valid colour or not — except `#rrggbb00` with a non-black colour. -/
+theorem color_ok_partial (t : Tok) (hg : ¬ (t.tt = .hash ∧ hexAlpha00 (lowerTail t.data) = true)) :
+    rgba (minifyColor t) = rgba t := by
+  obtain ⟨tt, data, args⟩ := t
+  cases tt <;> try rfl
+  · -- ident
+    simp only [minifyColor, Tok.tt]
+    split
+    · rename_i hex hl
+      have hm := lookup_mem _ _ _ hl
+      have ht := name_table_ok _ hm
+      simp only at ht
+      obtain ⟨h1, h2⟩ := ht
+      have hk : identOf (Tok.mk .ident data args) = lower data := by
+        have : identOf (Tok.mk .ident data args) = known (lower data) := by simp [identOf, Tok.tt, Tok.data]
+        rw [this] at h2 ⊢
+        rcases known_eq (lower data) with e | e
+        · exact e
+        · exact absurd e h2
+      simp only [rgba, tHash, Tok.tt, Tok.data]
+      rw [h1, hk, namedColor_lower]
+    · rfl
+  · -- hash
+    simp only [minifyColor, Tok.tt, Tok.data]
+    have hg' : hexAlpha00 (lowerTail data) = false := by
+      cases h : hexAlpha00 (lowerTail data)
+      · rfl
+      · exact absurd ⟨rfl, h⟩ hg
+    have h1 : hexColor ((lowerTail data).drop 1) = hexColor (data.drop 1) := by
+      cases data with
+      | nil => rfl
+      | cons c r => simp [lowerTail, hexColor_lower]
+    have h2 := hexColor_trimAlpha _ hg'
+    split
+    · rename_i name hl
+      have hm := lookup_mem _ _ _ hl
+      have ht := hex_table_ok _ hm
+      simp only at ht
+      simp only [rgba, Tok.tt, Tok.data]
+      rw [ht, h2, h1]
+    · simp only [rgba, Tok.tt, Tok.data]
+      rw [hexColor_shortHex, h2, h1]
+
+example : ¬ ((tHash (S "#AABBCCFF")).tt = .hash ∧ hexAlpha00 (lowerTail (tHash (S "#AABBCCFF")).data) = true) ∧
+    minifyColor (tHash (S "#AABBCCFF")) = tHash (S "#abc") ∧
+    minifyColor (tIdent (S "Black")) = tHash (S "#000") ∧ minifyColor (tHash (S "#FF0000")) = tIdent (S "red") := by
+  decide +kernel
+
+/-- K-C04-11: `#5ea4f400` → `#0000` keeps alpha 0 but turns the colour into black -/
+theorem color_counterexample : ¬ color_full := by
+  intro h
+  exact absurd (h (tHash (S "#5ea4f400"))) (by decide +kernel)
+
+/-! ## (d) fonts -/
+
+/-- **font-weight**: `normal` → `400`, `bold` → `700` (any case) keeps the weight every token denotes (CSS Fonts 3
+    §3.2); the keywords are recognised through the regenerated hash-name table. -/
+theorem font_weight_ok (vs : List Tok) : (minifyFontWeight vs).map fontWeightVal = vs.map fontWeightVal := by
+  cases vs with
+  | nil => rfl
+  | cons t r =>
+    by_cases hn : identOf t = S "normal"
+    · obtain ⟨h1, h2⟩ := identOf_eq t _ (by decide) hn
+      simp only [minifyFontWeight, hn, beq_self_eq_true, if_true, List.map_cons, fw400]
+      rw [fw_kw t _ 400 h1 h2 (by decide)]
+    · by_cases hb : identOf t = S "bold"
+      · obtain ⟨h1, h2⟩ := identOf_eq t _ (by decide) hb
+        have hn' : (identOf t == S "normal") = false := by simpa using hn
+        have hne : (S "bold" == S "normal") = false := by decide
+        simp only [minifyFontWeight, hb, hne, beq_self_eq_true, if_true, List.map_cons]
+        rw [fw_kw t _ 700 h1 h2 (by decide)]
+        simp [fw700]
+      · have hn' : (identOf t == S "normal") = false := by simpa using hn
+        have hb' : (identOf t == S "bold") = false := by simpa using hb
+        simp only [minifyFontWeight, hn', hb']
+        simp
+
+/-- **font-family, full statement**: lower-casing and unquoting a family string keeps the family it names.
+    *False*: `font_family_counterexample` (K-C04-6). -/
+def font_family_full : Prop :=
+  ∀ (q : Char) (body : List Char) (args : List Tok), (q = '"' ∨ q = '\'') → body ≠ [] → body.contains '\\' = false →
+    ∃ t', minifyFontFamilyTok (strTok q body args) = some t' ∧
+      familyOf (asWritten t') = familyOf [strTok q body args]
+
+/-- **font-family**: for every string token without backslash, lower-casing (family names match ASCII
+    case-insensitively) and unquoting (only when every space-separated word is an identifier) denotes the same
+    family, unless the lower-cased content is a generic-family/CSS-wide keyword or contains a CSS-wide keyword
+    — the deviation of the code's rule from CSS Fonts 3 §3.1 / CSS Values 3 §3.2. -/
+theorem font_family_partial (q : Char) (body : List Char) (args : List Tok)
+    (hq : q = '"' ∨ q = '\'') (hne : body ≠ []) (hb : body.contains '\\' = false)
+    (hg : familyKeywordString (lower body) = false) :
+    ∃ t', minifyFontFamilyTok (strTok q body args) = some t' ∧
+      familyOf (asWritten t') = familyOf [strTok q body args] := by
+  have hlen : 2 < (q :: body ++ [q]).length := by
+    cases body with
+    | nil => exact absurd rfl hne
+    | cons c r => simp
+  have hqb : q ≠ '\\' := by rcases hq with h | h <;> subst h <;> decide
+  have hcont : (q :: body ++ [q]).contains '\\' = false := by
+    have hm : ¬ '\\' ∈ body := by simpa using hb
+    simp [hm, hqb.symm]
+  have hlow : lower (q :: body ++ [q]) = q :: lower body ++ [q] := by
+    simp [lower, lower_quote q hq]
+  have hlb : lower (lower body) = lower body := lower_idem body
+  have hlbb : (lower body).contains '\\' = false := by rw [contains_bs_lower]; exact hb
+  rw [family_of_string q body args hb]
+  have hds : (List.drop 1 (q :: lower body ++ [q])).dropLast = lower body := by simp
+  simp only [minifyFontFamilyTok, strTok, Tok.tt, Tok.data, Tok.args, beq_self_eq_true, hlen, decide_true,
+    Bool.and_self, if_true, hcont, Bool.false_eq_true, if_false, hlow, hds]
+  split
+  · -- unquoted
+    rename_i hun
+    refine ⟨_, rfl, ?_⟩
+    have hall : ∀ w ∈ splitOn ' ' (lower body), w ≠ [] ∧ isIdentBytes w = true := by
+      intro w hw
+      have := (List.all_eq_true.mp hun) w hw
+      simp only [Bool.and_eq_true, Bool.not_eq_true', List.isEmpty_eq_false_iff] at this
+      exact this
+    have hjoin := splitOn_join (lower body)
+    have hfix := words_lower_fixed (lower body) hlb
+    -- the written bytes do not start with a quote
+    have hhead : (lower body).head? ≠ some '"' ∧ (lower body).head? ≠ some '\'' := by
+      cases hs : splitOn ' ' (lower body) with
+      | nil => exact absurd hs (splitOn_ne_nil _ _)
+      | cons w0 rest =>
+        have hw0 := hall w0 (by rw [hs]; exact List.mem_cons_self)
+        have hq0 := ident_not_quote w0 hw0.2
+        rw [hs] at hjoin
+        cases w0 with
+        | nil => exact absurd rfl hw0.1
+        | cons c r =>
+          have : (lower body).head? = some c := by
+            rw [← hjoin]
+            cases rest <;> simp [joinSpace]
+          rw [this]
+          simpa using hq0
+    have has : asWritten (Tok.mk .string (lower body) args) =
+        (splitOn ' ' (lower body)).map fun w => Tok.mk .ident w [] := by
+      simp only [asWritten, Tok.tt, Tok.data, beq_self_eq_true, Bool.true_and]
+      have h1 : ((lower body).head? == some '"') = false := by simpa using hhead.1
+      have h2 : ((lower body).head? == some '\'') = false := by simpa using hhead.2
+      simp [h1, h2]
+    rw [has]
+    cases hs : splitOn ' ' (lower body) with
+    | nil => exact absurd hs (splitOn_ne_nil _ _)
+    | cons w0 rest =>
+      rw [hs] at hjoin hfix
+      cases rest with
+      | nil =>
+        -- one word
+        simp only [joinSpace] at hjoin
+        subst hjoin
+        simp only [familyKeywordString, hs, Bool.or_eq_false_iff] at hg
+        simp only [List.map_cons, List.map_nil, familyOf, Tok.tt, Tok.data]
+        have g1 : ¬ lower body ∈ genericFamilies := by simpa using hg.1
+        have g2 : ¬ lower body ∈ cssWideKeywords := by simpa using hg.2
+        simp [hlb, g1, g2]
+      | cons w1 rest2 =>
+        simp only [familyKeywordString, hs] at hg
+        simp only [List.map_cons, familyOf]
+        have hm : ∀ w ∈ (w0 :: w1 :: rest2), lower w = w := by
+          intro w hw
+          have := hfix
+          have hidx : ∀ (l : List (List Char)), l.map lower = l → ∀ w ∈ l, lower w = w := by
+            intro l
+            induction l with
+            | nil => intro _ w hw; cases hw
+            | cons a r ih =>
+              intro h w hw
+              simp only [List.map_cons, List.cons.injEq] at h
+              rcases List.mem_cons.mp hw with e | e
+              · subst e; exact h.1
+              · exact ih h.2 w e
+          exact hidx _ hfix w hw
+        have hcw : ∀ w ∈ (w0 :: w1 :: rest2), cssWideKeywords.contains w = false := by
+          intro w hw
+          have := List.any_eq_false.mp hg w hw
+          simpa using this
+        have hallid : ((Tok.mk .ident w0 [] :: Tok.mk .ident w1 [] :: rest2.map fun w => Tok.mk .ident w []).all
+            fun t => t.tt == .ident && !cssWideKeywords.contains (lower t.data)) = true := by
+          simp only [List.all_cons, Tok.tt, Tok.data, beq_self_eq_true, Bool.true_and, Bool.and_eq_true,
+            Bool.not_eq_true', List.all_map, Function.comp_def, List.all_eq_true]
+          refine ⟨?_, ?_, ?_⟩
+          · rw [hm w0 (by simp)]; exact hcw w0 (by simp)
+          · rw [hm w1 (by simp)]; exact hcw w1 (by simp)
+          · intro w hw
+            rw [hm w (by simp [hw])]; exact hcw w (by simp [hw])
+        simp only [List.isEmpty_cons, Bool.false_eq_true, if_false, hallid, if_true]
+        have hmap : ((Tok.mk .ident w0 [] :: Tok.mk .ident w1 [] :: rest2.map fun w => Tok.mk .ident w []).map
+            fun t => lower t.data) = (w0 :: w1 :: rest2).map lower := by
+          simp [Tok.data, List.map_map, Function.comp_def]
+        simp only [List.map_cons] at hmap
+        rw [hmap]
+        simp only [List.map_cons] at hfix
+        rw [hfix, hjoin]
+  · -- still quoted
+    refine ⟨_, rfl, ?_⟩
+    have has : asWritten (Tok.mk .string (q :: lower body ++ [q]) args) = [strTok q (lower body) args] := by
+      simp only [asWritten, Tok.tt, Tok.data, beq_self_eq_true, Bool.true_and, strTok]
+      rcases hq with h | h <;> subst h <;> simp
+    rw [has, family_of_string q (lower body) args hlbb, hlb]
+
+example : familyKeywordString (lower (S "Times New Roman")) = false ∧
+    minifyFontFamilyTok (strTok '"' (S "Times New Roman") []) = some (Tok.mk .string (S "times new roman") []) := by
+  decide
+
+/-- K-C04-6: `"serif"` → `serif`: the family *named* serif becomes the generic family keyword -/
+theorem font_family_counterexample : ¬ font_family_full := by
+  intro h
+  obtain ⟨t', h1, h2⟩ := h '"' (S "serif") [] (Or.inl rfl) (by decide) (by decide)
+  have hm : minifyFontFamilyTok (strTok '"' (S "serif") []) = some (Tok.mk .string (S "serif") []) := by decide
+  rw [hm] at h1
+  have := Option.some.inj h1
+  subst this
+  exact absurd h2 (by decide)
 
 end Verif.Props.C04
